@@ -15,8 +15,9 @@ LEVEL = "exploration"
 RULE = ("Slice/Reverse/Chain/CountFrom/RunningChunkBy against Python list "
         "slicing, reversed, itertools and sliding windows.")
 ASSUMPTIONS = [
-    "flows are finite lists of distinct ints and lists containing None / false values; run is also repeated on the same Slice object (fill_into is single-use by design)",
-    "integer-valued float steps, Slice() without arguments and a list passed directly to a negative Slice.run are left out (not promised)",
+    "flows are finite sequences of distinct ints and of None / false values, handed to run() as list, tuple, deque, dict (keys), range, generator, map, iterator and user-defined iterables; run is also repeated on the same Slice object (fill_into is single-use by design)",
+    "repr(), ==, != and `in` applied to an element before it is used must not change what it does",
+    "integer-valued float steps and Slice() without arguments are left out (not promised)",
 ]
 
 R = [None] + list(range(-7, 8))
@@ -55,6 +56,70 @@ def _typed(v):
     return (type(v).__name__, v)
 
 
+class _Iterable(object):
+    """a re-iterable flow object that is not a list, tuple or deque"""
+    def __init__(self, xs):
+        self.xs = xs
+
+    def __iter__(self):
+        return iter(self.xs)
+
+
+class _Sized(_Iterable):
+    def __len__(self):
+        return len(self.xs)
+
+    def __getitem__(self, i):
+        if not isinstance(i, int):
+            raise TypeError("indices must be integers")
+        return self.xs[i]
+
+
+def _gen(xs):
+    for x in xs:
+        yield x
+
+
+def _hashable(xs):
+    try:
+        return len(set(xs)) == len(xs)
+    except TypeError:
+        return False
+
+
+# every way a finite flow can be handed to run(): one-shot iterators and re-iterable containers
+CONTAINERS = [
+    ("list", list), ("tuple", tuple), ("deque", collections.deque),
+    ("deque_maxlen", lambda xs: collections.deque(xs, maxlen=len(xs) + 3)),
+    ("iterable", _Iterable), ("sized", _Sized), ("generator", _gen),
+    ("list_iterator", lambda xs: iter(list(xs))),
+    ("dict_keys", lambda xs: dict.fromkeys(xs).keys()), ("dict", lambda xs: dict.fromkeys(xs)),
+    ("range", lambda xs: range(xs[0], xs[0] + len(xs)) if xs else range(0)),
+    ("map", lambda xs: map(lambda x: x, xs)),
+]
+
+
+def containers_for(xs):
+    for name, mk in CONTAINERS:
+        if name in ("dict_keys", "dict") and not _hashable(xs):
+            continue
+        if name == "range" and not (all(type(x) is int for x in xs)
+                                    and xs == list(range(xs[0] if xs else 0, (xs[0] if xs else 0) + len(xs)))):
+            continue
+        yield name, mk
+
+
+def observe(el, twin):
+    """operations that must not change what an element does afterwards"""
+    repr(el)
+    el == twin
+    el != twin
+    twin == el
+    el in [twin]
+    el == 5
+    repr(el)
+
+
 def judge_run(case):
     start, stop, step, n, form = (case["start"], case["stop"], case["step"],
                                   case["n"], case.get("form", 3))
@@ -79,6 +144,20 @@ def judge_run(case):
             raise Violation("slice-run-again-differs-from-list-slicing",
                             "the same Slice(%r,%r,%r) run again on a flow of %d values gives %s, expected %s" % (
                                 start, stop, step, len(xs2), short(got3), short(exp2)))
+    # the flow handed over as any kind of iterable (Sequence.run passes what it is given)
+    for cname, mk in containers_for(xs):
+        sl = _mk(start, stop, step, form)
+        observe(sl, _mk(start, stop, step, form))
+        try:
+            got4 = list(sl.run(mk(list(xs))))
+        except Exception as e:
+            raise Violation("slice-run-on-a-%s-fails" % cname,
+                            "Slice(%r,%r,%r).run(%s of %d values) raises %s: %s" % (
+                                start, stop, step, cname, n, type(e).__name__, e))
+        if list(map(_typed, got4)) != list(map(_typed, exp)):
+            raise Violation("slice-run-on-a-container-differs-from-list-slicing",
+                            "Slice(%r,%r,%r).run(%s of %d values) = %s, expected %s" % (
+                                start, stop, step, cname, n, short(got4), short(exp)))
     neg = (start is not None and start < 0) or (stop is not None and stop < 0)
     m = max(abs(start or 0), abs(stop or 0))
     return {"nontrivial": neg and n > 0,
@@ -223,6 +302,20 @@ def judge_chunks(case):
         raise Violation("running-chunks-differ-from-sliding-windows",
                         "RunningChunkBy(%d,%s) on range(%d): %s, expected %s" % (
                             size, kind, n, short(got), short(exp)))
+    if not case.get("as_iter", True):
+        # the same element again, the flow handed over as every kind of iterable
+        for cname, mk in containers_for(xs):
+            observe(el, RunningChunkBy(size))
+            try:
+                got = list(el.run(mk(list(xs))))
+            except Exception as e:
+                raise Violation("running-chunks-on-a-%s-fail" % cname,
+                                "RunningChunkBy(%d,%s).run(%s of %d values) raises %s: %s" % (
+                                    size, kind, cname, n, type(e).__name__, e))
+            if got != exp or [type(g) for g in got] != [type(e) for e in exp]:
+                raise Violation("running-chunks-differ-from-sliding-windows",
+                                "RunningChunkBy(%d,%s) on a %s of %d values: %s, expected %s" % (
+                                    size, kind, cname, n, short(got), short(exp)))
     return {"nontrivial": n > size, "classes": [kind]}
 
 
@@ -271,6 +364,14 @@ def judge_misc(case):
         g2 = list(rv.run(iter(mine)))
         if list(map(_typed, g1)) != list(map(_typed, exp)) or list(map(_typed, g2)) != list(map(_typed, exp)):
             raise Violation("reverse-differs", "%s -> %s then %s" % (xs, g1, g2))
+        for cname, mk in containers_for(list(xs)):
+            observe(rv, Reverse())
+            try:
+                g3 = list(rv.run(mk(list(xs))))
+            except Exception as e:
+                raise Violation("reverse-fails-on-a-%s" % cname, "%s: %s" % (type(e).__name__, e))
+            if list(map(_typed, g3)) != list(map(_typed, exp)):
+                raise Violation("reverse-differs", "%s of %s -> %s" % (cname, xs, g3))
         return {"nontrivial": len(xs) > 1, "classes": ["reverse"]}
     if k == "chain":
         its = case["its"]
@@ -281,6 +382,24 @@ def judge_misc(case):
         got2 = list(lena.core.Source(Chain(*[iter(list(i)) for i in its]))())
         if got2 != exp:
             raise Violation("chain-as-source-differs", "%s -> %s" % (its, got2))
+        # iterables of every kind; looking at a Chain (repr, ==, !=, in) before it is called changes nothing
+        for shift in range(3):
+            args = []
+            for j, i in enumerate(its):
+                kinds = list(containers_for(list(i)))
+                args.append(kinds[(j + shift * 5 + len(i)) % len(kinds)][1](list(i)))
+            c = Chain(*args)
+            observe(c, Chain(*[list(i) for i in its]))
+            observe(Chain(*[list(i) for i in its]), c)
+            try:
+                got3 = list(c())
+            except Exception as e:
+                raise Violation("chain-fails", "Chain of %s raises %s: %s" % (
+                    [type(a).__name__ for a in args], type(e).__name__, e))
+            if list(map(_typed, got3)) != list(map(_typed, exp)):
+                raise Violation("chain-differs-after-being-compared-or-on-other-iterables",
+                                "Chain(%s) of %s -> %s, expected %s" % (
+                                    [type(a).__name__ for a in args], its, short(got3), short(exp)))
         return {"nontrivial": sum(1 for i in its if i) > 1, "classes": ["chain"]}
     if k == "countfrom":
         start, step, take = case["start"], case["step"], case["take"]
@@ -293,6 +412,7 @@ def judge_misc(case):
             raise Violation("countfrom-source-differs", "%s" % (case,))
         # every call counts from the start again, also while an earlier generator is still alive
         cf = CountFrom(start, step)
+        observe(cf, CountFrom(start, step))
         g1 = cf()
         first = list(itertools.islice(g1, take // 2 + 1))
         g2 = cf()
